@@ -77,6 +77,11 @@ func (k Keeper) OpenConsolidate(ctx sdk.Context, existingMtp *types.MTP, newMtp 
 		if err != nil {
 			return nil, err
 		}
+
+		// the hooks refresh the owner's membership tier, and with it the fee discount the position is valued with
+		if err = k.CheckMTPHealthAfterHooks(ctx, creator, existingMtp.Id, baseCurrency); err != nil {
+			return nil, err
+		}
 	}
 
 	if err = k.CheckLowPoolHealthAndMinimumCustody(ctx, poolId); err != nil {
